@@ -655,6 +655,7 @@ func (a *Assembler) AssembleWithContext(netFlow gopacket.Flow, t *layers.TCP, ac
 		}
 		return
 	}
+	verifYield("Assemble.beforeConnLock")
 	conn.mu.Lock()
 	defer conn.mu.Unlock()
 	if half.lastSeen.Before(timestamp) {
@@ -1273,6 +1274,7 @@ func (a *Assembler) FlushWithOptions(opt FlushOptions) (flushed, closed int) {
 	flushes := 0
 	for _, conn := range conns {
 		remove := false
+		verifYield("Flush.beforeConnLock")
 		conn.mu.Lock()
 		for _, half := range []*halfconnection{&conn.s2c, &conn.c2s} {
 			flushed, closed := a.flushClose(conn, half, opt.T, opt.TC)
@@ -1327,6 +1329,7 @@ func (a *Assembler) FlushAll() (closed int) {
 	conns := a.connPool.connections()
 	closed = len(conns)
 	for _, conn := range conns {
+		verifYield("FlushAll.beforeConnLock")
 		conn.mu.Lock()
 		for _, half := range []*halfconnection{&conn.s2c, &conn.c2s} {
 			for !half.closed {
